@@ -42,7 +42,9 @@ RULE = ("history = 1-4 stations (EVSE / DeadbandEVSE / FiniteRatesEVSE), back-to
         "Battery or Linear2StageBattery (continuous/stepwise, with and without noise), ties of plugins/unplugs at one "
         "timestamp, RecomputeEvents before/between/after the sessions, untyped base Events, max_recompute in {None,1,2,3}, "
         "store_schedule_history on/off, scripted / UncontrolledCharging / sorted schedulers, the interruption an Exception, "
-        "a BaseException subclass or KeyboardInterrupt, the loaded simulator given a fresh scheduler / the same scheduler "
+        "a BaseException subclass or KeyboardInterrupt, raised at the start or at the very end of the algorithm's run "
+        "(after it fetched and edited its session copies: sorted / round-robin preprocessing, a scripted allocator "
+        "that books on its copies), the loaded simulator given a fresh scheduler / the same scheduler "
         "object / one registered with another simulator; station ids whose sort order differs from registration order, "
         "mixed-case, numeric-looking and empty ids; periods 0.5/2.5/7; non-default tolerances; signals; scheduler output as "
         "ints / numpy scalars / numpy arrays; numpy timestamps; a scheduler that overwrites the lists it returned; dumps "
@@ -85,6 +87,12 @@ EXC_KINDS = [SchedulerCrash, SchedulerAbort, KeyboardInterrupt]
 def exc_kind(h, k):
     """which exception class the scheduler raises at call k of history h (deterministic)"""
     return (h["script_seed"] + 2 * k) % 3
+
+
+def late_raise(h, k):
+    """does the scheduler raise at the very END of its run (after it has fetched and edited its session
+    copies and computed a schedule) instead of at the beginning?"""
+    return (h["script_seed"] // 5 + k) % 2 == 1
 
 
 def attach_mode(h, k):
@@ -183,6 +191,9 @@ def gen_history(rng, special=None, big=False):
             h["store_hist"] = False       # schedule_history keeps references to the scheduler's own lists
     if rng.random() < 0.2:
         h["np_times"] = True
+    if sched[0] == "scripted" and not special and not h.get("mutating_sched") and rng.random() < 0.35:
+        h["alloc"] = True
+        h["sched_dtype"] = 0
     return h
 
 
@@ -263,6 +274,19 @@ def make_scheduler(h):
                         for j in range(len(v)):
                             v[j] = 99.0
                 out = script(h, self_inner.interface.current_time)
+                if h.get("alloc"):
+                    # an allocator that books its plan on ITS copies of the sessions (not idempotent) and
+                    # derives the pilots from the edited copies
+                    ids = [st_id(h, i) for i in range(len(h["stations"]))]
+                    length = len(next(iter(out.values()))) if out else 1
+                    for sess in self_inner.interface.active_sessions():
+                        i = ids.index(sess.station_id)
+                        sess.energy_delivered += 0.125 * (i + 1)
+                        if len(sess.max_rates):
+                            sess.max_rates[0] = min(sess.max_rates[0], 64.0) / 2
+                        al = allowable(h["stations"][i]["kind"])
+                        key = int(round(sess.energy_delivered * 8)) + int(sess.max_rates[0] if len(sess.max_rates) else 0)
+                        out[sess.station_id] = [al[key % len(al)]] * length
                 self_inner._prev = out
                 return out
         a = Scripted()
@@ -296,9 +320,9 @@ def crashing_class():
         from acnportal.algorithms import BaseAlgorithm
 
         class Crashing(BaseAlgorithm):
-            def __init__(self, inner, k, calls, kind=0):
+            def __init__(self, inner, k, calls, kind=0, late=False):
                 super().__init__()
-                self.inner, self.k, self.n, self.calls, self.kind = inner, k, 0, calls, kind
+                self.inner, self.k, self.n, self.calls, self.kind, self.late = inner, k, 0, calls, kind, late
                 self.max_recompute = inner.max_recompute
 
             def register_interface(self, interface):
@@ -309,6 +333,10 @@ def crashing_class():
                 n = self.n
                 self.n += 1
                 if self.k is not None and n == self.k:
+                    if self.late:
+                        # the algorithm runs completely (it may edit the session objects it was given)
+                        # and fails when it is about to return
+                        self.inner.run()
                     raise EXC_KINDS[self.kind]("scheduler raised at call %d" % n)
                 r = self.inner.run()
                 self.calls.append(int(self.interface.current_time))
@@ -317,8 +345,8 @@ def crashing_class():
     return _CRASHING
 
 
-def Crashing(inner, k, calls, kind=0):
-    return crashing_class()(inner, k, calls, kind)
+def Crashing(inner, k, calls, kind=0, late=False):
+    return crashing_class()(inner, k, calls, kind, late)
 
 
 def make_evse(i, st):
@@ -543,7 +571,7 @@ def run_chain_impl(h, ref_ncalls):
     via_json = [r.random() < 0.5 for _ in ks]
     np.random.seed(h["np_seed"])
     calls = []
-    wrap = Crashing(make_scheduler(h), ks[0], calls, r.randint(0, 2))
+    wrap = Crashing(make_scheduler(h), ks[0], calls, r.randint(0, 2), True)
     sim = build(h, wrap)
     try:
         for i in range(len(ks) + 1):
@@ -560,7 +588,7 @@ def run_chain_impl(h, ref_ncalls):
                 if r.random() < 0.5:
                     wrap.k, wrap.n, wrap.kind = nxt, 0, r.randint(0, 2)      # the very same scheduler object
                 else:
-                    wrap = Crashing(make_scheduler(h), nxt, calls, r.randint(0, 2))
+                    wrap = Crashing(make_scheduler(h), nxt, calls, r.randint(0, 2), r.random() < 0.5)
                 sim.update_scheduler(wrap)
             else:
                 wrap.k, wrap.n, wrap.kind = nxt, 0, r.randint(0, 2)
@@ -756,7 +784,7 @@ def run_history(h, second_process=False):
     for k in range(ncalls):
         np.random.seed(h["np_seed"])
         calls = []
-        wrap = Crashing(make_scheduler(h), k, calls, exc_kind(h, k))
+        wrap = Crashing(make_scheduler(h), k, calls, exc_kind(h, k), late_raise(h, k))
         sim = build(h, wrap)
         try:
             sim.run()
@@ -765,7 +793,8 @@ def run_history(h, second_process=False):
         except INTERRUPTS:
             pass
         crash_obs = observe(sim, calls)
-        rec = dict(k=k, ref=ref_obs, crash=crash_obs, raised=EXC_KINDS[exc_kind(h, k)].__name__)
+        rec = dict(k=k, ref=ref_obs, crash=crash_obs,
+                   raised=EXC_KINDS[exc_kind(h, k)].__name__ + (" at the end of its run" if late_raise(h, k) else ""))
         problem = None
         # dump at the interruption point; dumping must not change the simulator
         nodes, addr = graph_of(sim)
